@@ -6,7 +6,8 @@ Case format (all JSON):
                                freshly and drops it right after it was yielded; the output is judged and dropped one by one),
    "wrap":null|"lazysparse"|"hashable"   (sparse actions are handed over as coba.pipes.rows.LazySparse / HashableSparse views),
    "more":[[INTER...]...]      (further sequences pushed through the SAME filter objects, one after the other, each judged on its own)}
-  INTER = {"context":V, "actions":[V...]?, "rewards":REW?, "feedbacks":REW?, "action":V?, "reward":Q?, "probability":Q?}
+  INTER = {"context":V, "actions":[V...]?, "rewards":REW?, "feedbacks":REW?, "action":V?, "reward":Q?, "probability":Q?,
+           "order":[key...]?   (the insertion order of the interaction dict's keys; default = the constructor's order)}
   V     = null | {"n":[num,den]} | {"s":str} | {"c":str,"L":[str...]} | {"l":[V...]} | {"t":[V...]} | {"d":[[key,V]...]}
           (outputs only: {"z":[[idx,V]...],"len":n} = coba.pipes.SparseDense)
   REW   = {"k":"list"|"tuple","v":[Q...]} | {"k":"binary","argmax":V,"value":Q} | {"k":"discrete","actions":[V...],"values":[Q...],"default":Q,"dict":bool}
@@ -186,7 +187,7 @@ def wrap_sparse(x, wrap):
     return x
 
 
-def mk_inter(it, wrap=None):
+def _mk_inter(it, wrap=None):
     from coba.primitives import SimulatedInteraction, GroundedInteraction, LoggedInteraction
     ctx = mk(it.get("context"))
     acts = [wrap_sparse(mk(a), wrap) for a in it["actions"]] if "actions" in it else None
@@ -200,6 +201,27 @@ def mk_inter(it, wrap=None):
     if "feedbacks" in it:
         return GroundedInteraction(ctx, acts, mk_rew(it["rewards"]), mk_rew(it["feedbacks"]))
     return SimulatedInteraction(ctx, acts, mk_rew(it["rewards"]))
+
+
+def mk_inter(it, wrap=None):
+    """the interaction, with its keys inserted in the order `it["order"]` asks for (interactions are plain dicts: nothing may depend on it)"""
+    x = _mk_inter(it, wrap)
+    order = it.get("order")
+    if not order:
+        return x
+    y = dict.__new__(type(x))
+    for k in order:
+        if k in x:
+            dict.__setitem__(y, k, x[k])
+    for k in x:
+        if k not in y:
+            dict.__setitem__(y, k, x[k])
+    return y
+
+
+def first_kinds(it):
+    """number of different value kinds (sparse / dense / scalar …) among the actions of an interaction"""
+    return len({sorted(a.keys())[0] if a is not None and "c" not in a else "c" for a in (it.get("actions") or [])})
 
 
 def sequences(case):
@@ -842,10 +864,14 @@ class Gen:
             return ("str",)
         if r < 40:
             return ("cat", self.levels() if self.r.chance(0.3) else self.r.shuffle(LEVELS)[:self.r.randint(2, 5)])
-        if r < 70:
+        if r < 66:
             return self.dense_schema()
-        if r < 93:
+        if r < 87:
             return self.sparse_schema()
+        if r < 93:
+            # a mixed action set: sparse actions next to a scalar / string / dense "special" action (e.g. a skip action), in any position
+            other = self.r.choice([("num",), ("str",), ("dense", "t", [("n",), ("n",)]), ("dense", "t", [("n",), ("s",)])])
+            return ("mixed", self.plain_sparse_schema() if self.r.chance(0.7) else self.sparse_schema(), other)
         pool = [V_n(i) for i in range(1, 6)] if self.r.chance(0.5) else [{"s": s} for s in STRS[:5]]
         return ("multi", self.r.choice(["l", "t"]), pool)
 
@@ -893,9 +919,17 @@ class Gen:
         if k == "multi":
             n = self.r.randint(1, 3)
             return {sc[1]: self.r.shuffle(sc[2])[:n]}
+        if k == "mixed":
+            return self.value(sc[1] if self.r.chance(0.6) else sc[2])
         raise ValueError(k)
 
     def action_set(self, sc, k):
+        if sc[0] == "mixed":
+            n_other = 1 if k <= 2 or self.r.chance(0.7) else 2
+            others = self.action_set(sc[2], n_other)
+            sparse = self.action_set(sc[1], max(1, k - n_other))
+            # the special action first in half of the cases (first-row decisions), else anywhere
+            return others + sparse if self.r.chance(0.5) else self.r.shuffle(others + sparse)
         acts = []
         tries = 0
         while len(acts) < k and tries < 60:
@@ -1085,6 +1119,12 @@ class Gen:
             w = r.choice([None, "lazysparse", "hashable"])
             if w:
                 case["wrap"] = w
+        if r.chance(0.35):
+            # interactions are dicts: permute the insertion order of their keys (differently per interaction)
+            for seq_ in [stream]:
+                for it in seq_:
+                    if r.chance(0.7):
+                        it["order"] = r.shuffle([k for k in ("context", "actions", "rewards", "feedbacks", "action", "reward", "probability") if k in it])
         if case.get("wrap") == "hashable":
             # HashableSparse views are hashable, the model's dicts are not: Cycle's `set(actions)` would differ
             case["chain"] = [st if st["f"] != "cycle" else {"f": "flatten"} for st in chain]
@@ -1273,6 +1313,10 @@ class C10(Property):
             tags.append("wrap:" + case["wrap"])
         if case.get("more"):
             tags.append("reuse:%d" % (1 + len(case["more"])))
+        if any("order" in it for it in case["stream"]):
+            tags.append("key-order-permuted")
+        if first_kinds(case["stream"][0]) > 1:
+            tags.append("actions:mixed-kinds")
         tags.append("len:%d" % len(case["chain"]))
         tags.append("stream:%s" % ("1-3" if len(case["stream"]) <= 3 else "4-19" if len(case["stream"]) < 20 else "20+"))
         first = case["stream"][0]
@@ -1583,6 +1627,8 @@ class C10(Property):
             yield {k: v for k, v in case.items() if k != "delivery"}
         if case.get("wrap"):
             yield {k: v for k, v in case.items() if k != "wrap"}
+        if any("order" in it for it in st):
+            yield dict(case, stream=[{k: v for k, v in it.items() if k != "order"} for it in st])
         if len(st) > 3:
             yield dict(case, stream=st[:len(st) // 2])
             yield dict(case, stream=st[len(st) // 2:])
